@@ -196,6 +196,8 @@ def _mk_world(S, cfg, specs, vias, tier):
     for i, sp in enumerate(specs):
         h = f'A{i}'
         pool[h] = {'kind': 'ann', 'via': vias[i], 'spec': sp}
+        if vias[i] == 'create':
+            pool[h]['order'] = SP.gen_order(S, sp)
         W['kinds'].setdefault('ann', []).append(h)
         W['specs'][h] = sp
         if len(sp['seq']) <= 5:
@@ -216,7 +218,59 @@ def gen_plan(S, index, tier):
     header = {'property': ID, 'seed': S.seed, 'index': index, 'tier': tier}
     if index < pair_runs:
         return _gen_pair_plan(S, index, header, opnames)
+    sweep_runs = len(opnames) * len(world.FIXED_SPECS) * len(POISON_SPOTS)
+    if index < pair_runs + sweep_runs:
+        return _gen_poison_plan(S, index - pair_runs, header, opnames)
     return _gen_random_plan(S, header, tier)
+
+
+POISON_SPOTS = ['first', 'last', 'cterm']
+
+
+def _gen_poison_plan(S, k, header, opnames):
+    """fault enumeration in the small: every catalogue op once on every fixed Spec with one unresolvable
+    modification at the first residue / the last residue / the C-terminus - the call may fail part-way (validation
+    of modification names is deferred until a mass is needed) and must leave everything as it was"""
+    n = len(opnames)
+    spot, rest = divmod(k, n * len(world.FIXED_SPECS))
+    si, oi = divmod(rest, n)
+    cfg = SP.swarm_cfg(S)
+    sp = copy.deepcopy(world.FIXED_SPECS[si])
+    val = SP.POISON[(si + oi + spot) % len(SP.POISON)]
+    where = POISON_SPOTS[spot]
+    if where == 'cterm':
+        sp['cterm'] = list(sp['cterm']) + [[val, 1]]
+    else:
+        i = 0 if where == 'first' else len(sp['seq']) - 1
+        sp['internal'].setdefault(str(i), []).append([val, 1])
+    short = copy.deepcopy(world.FIXED_SPECS[3])
+    pool, W = _mk_world(S, cfg, [sp, short], ['parse', 'parse'], 'quick')
+    name = opnames[oi]
+    o = OPS[name]
+    header.update({'mode': 'poison-sweep', 'op': name, 'spec': si, 'clients': 1, 'faults': ['poison'],
+                   'poisoned': ['A0', where, val]})
+    events = []
+    nres = 0
+    args = None
+    for _ in range(6):
+        args = o.gen(S, W)
+        if args is not None:
+            break
+    if args is None and name in ('Fragmenter.fragment', 'Fragment.to_dict'):
+        return {'header': header, 'pool': pool, 'events': events}
+    if args is None:
+        return {'header': header, 'pool': pool, 'events': events}
+    if 'size' not in args and 'max_mods' not in args:      # combinatorial ops stay on the short peptide
+        for an, av in args.items():
+            if isinstance(av, dict) and av.get('h') in ('A1', 'S0') and an in ('sequence', 'self', 'subsequence', 'other'):
+                args[an] = {'h': 'A0'}
+    events.append({'act': 'call', 'client': 0, 'op': name, 'args': args, 'out': 'R0', 'twin_first': S.coin(0.5)})
+    if o.lazy:
+        events.append({'act': 'drain', 'client': 0, 'lazy': 'R0'})
+    # a second, mass-resolving call afterwards: the history of a failed call must not show
+    events.append({'act': 'call', 'client': 0, 'op': 'mass', 'args': OPS['mass'].gen(S, W) | {'sequence': {'h': 'A0'}},
+                   'out': 'R1', 'twin_first': False})
+    return {'header': header, 'pool': pool, 'events': events}
 
 
 def _gen_pair_plan(S, index, header, opnames):
@@ -844,7 +898,7 @@ def _spec_shrinks(sp):
 
 CHUNK = 200
 RULE = ("run index i < 108*108*5: systematic family - ordered pair (op_a, op_b) of the 108-entry catalogue applied by two "
-        "clients to one shared all-features annotation (5 fixed Specs); other indices: seeded random history of 2-12 "
+        "clients to one shared all-features annotation (5 fixed Specs); the next 108*5*3 indices: poison sweep - every op once on every fixed Spec with one unresolvable modification at the first residue / last residue / C-terminus, followed by a mass call; other indices: seeded random history of 2-12 "
         "catalogue calls by 1-3 clients on 1-4 shared generated annotations plus shared list/dict arguments, with "
         "interleaved single steps / abandonment of lazy results, scribbles on returned values, RNG use, vocabulary "
         "refresh and poisoned modifications, per-run swarm switches. Distinct = distinct sequence of (event kind | op "
@@ -852,7 +906,7 @@ RULE = ("run index i < 108*108*5: systematic family - ordered pair (op_a, op_b) 
         "comparison ran.")
 EXPECTED_PROBES = ['twin_first', 'call_raised', 'lazy_stepped_across_a_call', 'abandoned_after_first_item',
                    'explicit_editor_event']
-FAMILY_STARTS = [0, 108 * 108 * 5]
+FAMILY_STARTS = [0, 108 * 108 * 5, 108 * 108 * 5 + 108 * 5 * 3]
 ASSUMPTIONS = [
     "field accessors (properties, has_*, get_internal_mods_by_index) and Fragment.parent_sequence are references into "
     "the object by design and are not treated as 'results' for the aliasing clause",
